@@ -508,7 +508,11 @@ func (f *fakeEtcd) totals() (int, int, wkey) {
 
 // waitTotals waits for go-zero's next Get and Watch calls on any range.
 func (f *fakeEtcd) waitTotals(gets, watches int) bool {
-	t := time.NewTimer(patience())
+	return f.waitTotalsFor(gets, watches, patience())
+}
+
+func (f *fakeEtcd) waitTotalsFor(gets, watches int, d time.Duration) bool {
+	t := time.NewTimer(d)
 	defer t.Stop()
 	for {
 		g, w, _ := f.totals()
@@ -518,7 +522,9 @@ func (f *fakeEtcd) waitTotals(gets, watches int) bool {
 		select {
 		case <-f.note:
 		case <-t.C:
-			fired()
+			if d >= watchdog {
+				fired()
+			}
 			return false
 		}
 	}
